@@ -44,7 +44,7 @@ def _history(draw):
             # (hash(-1.0) == hash(-2.0)): a cache keyed on hash(args) instead of the arguments confuses them
             spec["qs"][1] = list(spec["qs"][0]); spec["qs"][2] = list(spec["qs"][0])
             spec["qs"][1][2], spec["qs"][2][2] = -1.0, -2.0
-        methods = ["A_IB", "A_IB_q", "r_OP", "r_OP_q", "v_P", "v_P_q", "J_P", "J_P_q", "a_P"]
+        methods = ["A_IB", "A_IB_q", "r_OP", "r_OP_q", "v_P", "v_P_q", "J_P", "J_P_q", "a_P", "after_inplace_update"]
         changers = ["step_callback", "overwrite_q"]
     elif kind == "rod":
         rs = draw(rodbuild.rod_spec(max_nel=2, allow_constraints=False))
@@ -143,6 +143,20 @@ def check(spec):
             def ev(op):
                 t, q, u, B = ts[op["t"]], qs[op["q"]], us[op["u"]], Bs[op["B"] % len(Bs)]
                 m = op["op"]
+                if m == "after_inplace_update":
+                    # the caller advances its state array in place between two evaluations; the second one is made with
+                    # a copy of the old state. Centre of mass: position q[:3] and velocity u[:3] are the exact answers.
+                    z3 = np.zeros(3)
+                    q_old, u_old = q.copy(), u.copy()
+                    body.r_OP(t, q, None, z3)
+                    body.v_P(t, q, u, None, z3)
+                    q[:3] += 0.37
+                    u[:3] -= 0.21
+                    out = np.concatenate([np.asarray(body.r_OP(t, q_old, None, z3), dtype=float) - q_old[:3],
+                                          np.asarray(body.v_P(t, q_old, u_old, None, z3), dtype=float) - u_old[:3]])
+                    q[:3] -= 0.37
+                    u[:3] += 0.21
+                    return out
                 if m in ("A_IB", "A_IB_q"):
                     return getattr(body, m)(t, q)
                 if m in ("r_OP", "r_OP_q", "J_P", "J_P_q"):
@@ -155,7 +169,8 @@ def check(spec):
                 if op["op"] == "step_callback":
                     body.step_callback(ts[op["t"]], qs[op["q"]], us[op["u"]])  # normalises the pool array in place
                 else:
-                    qs[op["q"]][:] = np.array(spec["qs"][op["src"]], dtype=float) * (1.0 + 0.01 * op["t"])
+                    # load another pool state into this array in place: exactly (when the velocity index is even) or scaled
+                    qs[op["q"]][:] = np.array(spec["qs"][op["src"]], dtype=float) * (1.0 if op["u"] % 2 == 0 else 1.0 + 0.01 * op["t"])
 
             return ev, ch, [body], "RigidBody"
         if kind == "rod":
@@ -267,6 +282,10 @@ def check(spec):
         _clear(objs_b)
         vb = ev_b(op)
         res.ok()
+        if op["op"] == "after_inplace_update" and np.any(np.abs(np.asarray(va)) > 1e-15):
+            res.fail("memoised_equals_unmemoised", f"{site}.r_OP/v_P(state array updated in place)", float(np.max(np.abs(va))), feats,
+                     f"operation {i}: the value returned for the old state changed when the caller's array was advanced")
+            return res
         if not _same(va, vb):
             try:
                 mag = float(np.max(np.abs(np.asarray(sysbuild.dense(va), dtype=float) - np.asarray(sysbuild.dense(vb), dtype=float))))
